@@ -34,6 +34,11 @@ def _setup_game(ctx):
     goals = [w.pred(f'G{j}', w.STATE) for j in range(ng)]
     aut.win['<>[]'] = list(holds)
     aut.win['[]<>'] = list(goals)
+    if ctx.p.get('stale_primed_lists'):
+        # the solvers are documented to WRITE varlist[env'], varlist[sys']:
+        # their pre-state may hold anything, e.g. an earlier partition
+        aut.varlist["env'"] = [v + "'" for v in w.shape.sys]
+        aut.varlist["sys'"] = [v + "'" for v in w.shape.env]
     return aut, E, S, holds, goals
 
 
